@@ -242,7 +242,7 @@ class Mod:
             else:
                 n = rng.choice([1, 1, 2, 3]) if not self.opts.get("wide") else rng.choice([1, 2, 3, 6, 7, 8])
                 if not self.opts.get("pool") and f.idx % 5 == 0 and p is params[0]:
-                    p.vals = list(WIDE_GROUPS[(f.idx // 5) % len(WIDE_GROUPS)])
+                    p.vals = list(WIDE_GROUPS[(f.idx // 5 + sum(map(ord, self.name))) % len(WIDE_GROUPS)])  # every group, over the modules
                 elif not self.opts.get("pool") and rng.random() < 0.2:
                     p.vals = list(rng.choice(VALUE_GROUPS))
                 else:
@@ -318,7 +318,7 @@ class Mod:
                     n = rng.choice([1, 1, 2])
                     f.ret_vals = [prefix_keys(e, f"r{idx}") if unique else e for e in rng.sample(self.value_pool(), n)]
                     if not self.opts.get("pool") and idx % 5 == 1 and flavor == "plain":
-                        f.ret_vals = list(WIDE_GROUPS[(idx // 5) % len(WIDE_GROUPS)])
+                        f.ret_vals = list(WIDE_GROUPS[(idx // 5 + sum(map(ord, self.name)) + 3) % len(WIDE_GROUPS)])
             elif f.exit in ("none", "raise") and flavor == "plain" and rng.random() < 0.15:
                 f.ret_ann = "None" if f.exit == "none" else rng.choice(["int", "None"])
             self.funcs.append(f)
